@@ -266,6 +266,57 @@ PROPS['C14'] = dict(
     required_classes=['level:kernel', 'level:api', 'api:map', 'api:linear', 'placeA:page-end', 'mismatch', 'equal'],
 )
 
+c10 = B('c10_ondemand', 'c10_ondemand.cpp', 'asan')
+c10p = B('c10_ondemand', 'c10_ondemand.cpp', 'prod')
+fz10 = B('fz_ondemand', 'c10_ondemand.cpp', 'fuzz')
+PROPS['C10'] = dict(
+    title='On-demand lookup returns exactly what full parsing plus pointer lookup returns',
+    units=[
+        U(c10, 'prng', 25000, 1500000, wq=5, wt=8, label='c10-asan'),
+        U(c10p, 'prng', 60000, 4000000, wq=3, wt=4, label='c10-prod'),
+        U(c10, 'rc', 2000, 50000, wq=2, wt=2, label='c10-rc'),
+        F(fz10, 15, 600, wq=2, wt=2, label='fz_ondemand', field='raw', dict='fuzz/json.dict', seeds='fuzz/seeds/ondemand'),
+    ],
+    harness_alias={'fz_ondemand': 'c10_ondemand'},
+    rule='cases: (valid text, path). Texts: generated values (empty containers in every position, duplicate keys, keys needing '
+         'escapes, keys/strings containing []{}",:\\, depth <= 7) rendered with random layouts (whitespace runs > 64, pad '
+         '0..130, escaped spellings of keys). Paths (4 per text): existing paths, and wrong continuations of prefixes of '
+         'existing paths: absent key, prefix/extension of a key, key of another object, index == size / size+1 / size+1000 / '
+         'INT_MAX / -1 / INT_MIN, index into object, key into array, any step into an empty container, steps below a scalar. '
+         'Oracle: refjson.resolve on the generating value (first match); hit => kErrorNone, slice inside the input, '
+         'refjson.parse(slice) == resolved value, ParseOnDemand yields it; miss => error, empty slice, ParseOnDemand has a parse '
+         'error and a null document; DOM Parse+AtPointer agrees. Buffers: exact-size heap block (ASan) / page-end and '
+         'page-start guard pages. evaluations counts (text,path) pairs as oracle sub-evaluations. Non-trivial: non-empty path.',
+    min_evaluations=dict(quick=100000, thorough=2000000),
+    required_classes=['hit:existing', 'miss:absent-key', 'miss:index==size', 'miss:index-into-empty-array', 'miss:index==-1',
+                      'miss:key-into-empty-object', 'miss:index-below-scalar', 'path-with-escaped-key', 'miss:key-of-another-object'],
+)
+
+c11 = B('c11_ondemand_raw', 'c10_ondemand.cpp', 'asan', defines=['-DVF_C11'])
+c11p = B('c11_ondemand_raw', 'c10_ondemand.cpp', 'prod', defines=['-DVF_C11'])
+fz11 = B('fz_ondemand_raw', 'c10_ondemand.cpp', 'fuzz', defines=['-DVF_C11'])
+PROPS['C11'] = dict(
+    title='On-demand scanning of arbitrary unpadded input stays inside the input',
+    units=[
+        U(c11, 'prng', 50000, 3000000, wq=4, wt=8, label='c11-asan'),
+        U(c11p, 'prng', 200000, 10000000, wq=3, wt=4, label='c11-prod'),
+        U(c11, 'rc', 3000, 50000, wq=1, wt=2, label='c11-rc'),
+        F(fz11, 20, 900, wq=4, wt=6, label='fz_ondemand_raw', field='raw', dict='fuzz/json.dict', seeds='fuzz/seeds/ondemand'),
+    ],
+    harness_alias={'fz_ondemand_raw': 'c11_ondemand_raw'},
+    rule='cases: (byte string, path, buffer placement). Byte strings: valid texts, truncations (and every prefix of small texts), '
+         'single-fault mutants, lengths 0,1,2,15-17,31-33,63-67,127-130, nesting stress, libFuzzer bytes (path decoded from the '
+         'first bytes). Paths: existing / wrong continuations of the original value, and random key/index sequences incl. '
+         'negative indices and keys spelled with escapes. Placement: heap block of exactly len bytes (ASan redzones, also '
+         'len==0), text ending on the last byte before a PROT_NONE page, text starting right after a PROT_NONE page (production '
+         'build, hostile bytes after the text). Oracle: no sanitizer report / fault; success => slice within [data,data+len) and '
+         'offset <= len; error => empty slice, code in range; ParseOnDemand returns coherently. Nothing is asserted about which '
+         'outcome a malformed text gets. Non-trivial: len >= 1 and a non-empty path.',
+    min_evaluations=dict(quick=200000, thorough=3000000),
+    required_classes=['input:truncated', 'input:valid', 'place:heap-exact', 'place:page-end', 'place:page-start', 'all-prefixes',
+                      'input:block-length'],
+)
+
 
 def tool_versions():
     out = {}
